@@ -71,6 +71,9 @@ def load_known():
 # has one set of globals, whoever reads or writes it):
 #          ("SC", var, int)            S by the module's own setter: `set_x(v)` in the module's body
 #          ("OG", path_list, sid)      O of <module>.<var> through the module's getter: `obs(m.get_x(), sid)`
+#          ("TH", body)                a block of statements run in a thread the program starts and waits for:
+#                                      `spawn(func() { ... }).wait()`; the body IMPORTS modules the program has already
+#                                      imported (any spelling, a new alias) and observes them through the new binding
 #          ("CT", path_list, var, int) C from a thread the program starts and waits for: `spawn(func() { m.set_x(v) }).wait()`
 
 def hx(b):
@@ -98,7 +101,9 @@ def enc_actions(acts, out):
             out += ["Q", str(len(a[1]))] + [hx(p) for p in a[1]] + [str(len(a[2]))] + [hx(p) for p in a[2]]
         elif k == "X":
             out.append("X")
-        elif k == "T":
+        elif k in ("T", "TH"):
+            # (TH: the body runs in a thread the program starts and waits for; it holds only statements that cannot fail, so
+            # for the model - one module table per evaluation, whoever imports - it is the same block)
             out += ["T", str(len(a[1]))]
             enc_actions(a[1], out)
         elif k == "R":
@@ -219,6 +224,10 @@ def render(rng, acts, ind, sid_of):
                                                       ".".join(p.decode() for p in a[2]), sid_of(a)))
         elif k == "X":
             lines.append(pad + 'error("boom")')
+        elif k == "TH":
+            lines.append(pad + "spawn(func() {")
+            lines += render(rng, a[1], ind + 1, sid_of)
+            lines.append(pad + "}).wait()")
         elif k == "T":
             lines.append(pad + "try(func() {")
             lines += render(rng, a[1], ind + 1, sid_of)
@@ -641,6 +650,8 @@ class Gen:
             self.probe_globals(scope, acts, expect)
         if rng.chance(1, 3):
             self.probe_from(mods, scope, acts, expect)
+        if rng.chance(1, 2):
+            self.probe_thread(scope, acts, expect)
         for pr in getattr(self, "twin_pairs", []):
             if rng.chance(3, 4):
                 self.probe_twins(pr, scope, acts, expect)
@@ -709,6 +720,37 @@ class Gen:
         expect += [("equal", s1, s2, "two aliases of module %r denote different module objects" % name),
                    ("is", s3, "b:true", "two aliases of module %r compare unequal" % name),
                    ("is", s4, "b:true", "two aliases of module %r show different values of x0" % name)]
+
+    def probe_thread(self, scope, acts, expect):
+        """a module the program has imported is imported AGAIN by a function running in a spawned thread (any spelling, a new
+        alias): within the evaluation that is the same module - no second run of its code (the generic run-once oracle), the
+        same module object, the state the program left in it - and what the thread writes through its binding is what
+        the program reads afterwards"""
+        rng = self.rng
+        mods = [(al, info[1]) for al, info in scope.items() if info[0] == "mod"
+                and all(is_ascii_ident(p) for p in info[1].split(b"/")) and info[1].split(b"/")[-1] not in VARS]
+        if not mods:
+            return
+        al, name = rng.choice(mods)
+        v = b"x0"
+        w = 40000 + rng.below(9000)
+        w2 = 50000 + rng.below(9000)
+        s0, s1, s2, s3, s4, s5, s6 = [self.next_sid() for _ in range(7)]
+        c = self.fresh()
+        hint = "ident" if (b"/" not in name and rng.chance(1, 2)) else "quoted"
+        body = [("I", name, c, hint), ("O", [c], s1), ("Q", [c], [al], s2), ("O", [c, v], s3), ("OG", [c, v], s4)]
+        if rng.chance(1, 2):
+            c2 = self.fresh()
+            body.append(("I", name, c2, "quoted"))
+        body += [("C", [c], v, w2)]
+        acts += [("C", [al], v, w), ("O", [al], s0), ("TH", body), ("O", [al, v], s5), ("OG", [al, v], s6)]
+        what = "module %r, imported by the program, imported again inside a spawned thread: " % name
+        expect += [("equal", s0, s1, what + "the thread's binding denotes a different module object"),
+                   ("is", s2, "b:true", what + "the thread's binding and the program's compare unequal"),
+                   ("is", s3, "i:%d" % w, what + "the thread does not see the value the program wrote (attribute)"),
+                   ("is", s4, "i:%d" % w, what + "the thread does not see the value the program wrote (the module's getter)"),
+                   ("is", s5, "i:%d" % w2, what + "the program does not see the value the thread wrote (attribute)"),
+                   ("is", s6, "i:%d" % w2, what + "the program does not see the value the thread wrote (the module's getter)")]
 
     def probe_from(self, mods, scope, acts, expect):
         """the same (package, name) imported by a one-name and by a several-name from-import must denote one thing"""
@@ -1210,7 +1252,7 @@ def unstable_names(mods):
                 reqs.add(par)
                 for n, _ in a[2]:
                     reqs.add(par + b"/" + n)
-            elif a[0] == "T":
+            elif a[0] in ("T", "TH"):
                 walk(a[1], reqs, flag)
             elif a[0] == "R":
                 flag.append(True)
@@ -1245,7 +1287,7 @@ def static_cycle_names(mods):
                 out.add(par)
                 for n, _ in a[2]:
                     out.add(par + b"/" + n)
-            elif a[0] == "T":
+            elif a[0] in ("T", "TH"):
                 reqs(a[1], out)
             elif a[0] == "R":
                 reqs(a[2], out)
@@ -1802,9 +1844,43 @@ def body(res, tools, work, proved):
         elif in_class and SHADOW_CLASS in known_classes:
             res.notes.append("the recorded finding %s no longer reproduces on witness module %s" % (SHADOW_CLASS, n))
 
+    # ---------------- stage C: how the import root is configured (none / empty / relative / "." / unclean absolute), from a
+    # scratch working directory that holds module files of the imported names at every level
+    rc_, o_, e_ = C.run([tools["c14obs"], "rootcfg"], timeout=600)
+    rootcfg = {"evaluations": 0}
+    summ = [l for l in o_.splitlines() if l.startswith("SUMMARY")]
+    if rc_ != 0 or not summ:
+        res.violation({"property": PROP, "kind": "harness-run-failed", "stage": "c14obs rootcfg", "log": (o_ + e_)[-1500:]},
+                      nofail=True, tag="rootcfg")
+        return
+    for kv in summ[0].split("\t")[1:]:
+        k_, _, v_ = kv.partition("=")
+        rootcfg[k_] = int(v_)
+    rootcfg["evaluations"] = rootcfg.pop("evals")
+    evals += rootcfg["evaluations"]
+    for line in o_.splitlines():
+        f = line.split("\t")
+        if f[0] == "VIOL" and len(f) >= 8:
+            oracle_viol.append({"property": PROP, "kind": "oracle-violation", "stage": "rootcfg", "aspect": "confinement",
+                                "config": f[1], "working_directory": "<scratch>/" + f[2], "import_root_argument": f[3],
+                                "main": f[4], "module_files_run": f[5].split(",") if f[5] else [], "status": f[6],
+                                "call": "chdir(<scratch>/%s); risor.Eval(%r%s)" % (
+                                    f[2], f[4], "" if f[3].startswith("<no ") else ", risor.WithLocalImporter(%r)" % f[3]),
+                                "why": "%s, but the code of these module files ran: %s (evaluation: %s)" % (f[7], f[5], f[6])
+                                       if f[5] else "%s (evaluation: %s)" % (f[7], f[6])})
+    if rootcfg.get("module_bodies_run"):
+        nontrivial.add(("rootcfg", rootcfg["module_bodies_run"]))
+    cov["import_root_configurations"] = rootcfg
+
     cov["evaluations"] = evals
     cov["distinct_nontrivial"] = len(nontrivial)
-    cov["rule"] = ("stage A: %d import texts (every escape form of the lexer, hostile path values x 4 statement spellings, "
+    cov["rule"] = ("stage C: %d evaluations of every import spelling under %d configurations of the import root (no importer, the "
+                   "empty path, relative spellings, '.', 'sub/..', unclean absolute paths) from a scratch working directory "
+                   "holding module files of the imported names at every level: without a root no module code runs, with a root "
+                   "only files under the directory the host named; programs of stage B also import, inside spawned threads, "
+                   "modules the program has already imported (same object, same state, no second run); " % (
+                       rootcfg["evaluations"], rootcfg.get("configs", 0)) +
+                   "stage A: %d import texts (every escape form of the lexer, hostile path values x 4 statement spellings, "
                    "raw malformed statements) parsed by parser.Parse and by the extracted parser model, then evaluated by "
                    "risor.Eval in a temp tree with sentinel files outside the import root under three importer routes "
                    "(WithLocalImporter, recording wrapper around LocalImporter, FSImporter over a recording fs.FS) and by the "
@@ -1833,7 +1909,7 @@ def body(res, tools, work, proved):
         "filepath.Join/Clean, regexp matching and os.ReadFile are modelled (Unix semantics), validated by the comparison of file names",
         "symlinks inside the import root are outside the property (path strings only)",
         "a body that fails is run again when imported again (by design): C14_once bounds the starts by 1 + failures",
-        "cloned VMs (spawn/go) snapshot the module cache: two goroutines may each run a not-yet-cached module (stated, not proved away)",
+        "cloned VMs (spawn/go) snapshot the module cache: two goroutines may each run a NOT-YET-cached module (stated, not proved away); imports inside threads of modules the program has ALREADY imported are generated and judged (probe_thread)",
     ]
 
     for cls, whys in known_hits.items():
@@ -1910,6 +1986,10 @@ def replay(data):
     if not obs:
         print(err)
         return 2
+    if data.get("stage") == "rootcfg":
+        rc, o, e = C.run([obs, "rootcfg"])
+        print("\n".join(l for l in o.splitlines() if not l.startswith("VIOL") or (data["config"] in l and data["main"] in l)))
+        return 0
     rng = C.Rng(1)
     if data.get("stage") == "text":
         files, idx, labels = tree_files(rng, FIXED_TREE)
